@@ -612,6 +612,11 @@ class Resolver:
         ty = op.get("ty", "")
         if "fn" in op:
             return ("const", "fn", ("fn", op["fn"]))
+        if "str_array" in op:
+            # a constant table of string literals: the same tree as the array literal
+            return ("agg", ("array", "&str"), tuple(("const", "&str", x) for x in op["str_array"]))
+        if "enum_array" in op:
+            return ("agg", ("array", op.get("enum_ty", "")), tuple(("const", op.get("enum_ty", ""), ("enum", x)) for x in op["enum_array"]))
         if "enum_variant" in op:
             if "payload_str" in op:
                 return ("const", ty, ("enum", op["enum_variant"], op["payload_str"]))
